@@ -93,6 +93,19 @@ impl Val {
     pub fn text(s: &str) -> Val {
         Val::Text(s.to_string())
     }
+    /// expression values are jump-table indices: express them relative to a program's first jump entry
+    pub fn rebase_expr(&self, j0: usize) -> Val {
+        match self {
+            Val::Expr(n) => Val::Expr(if *n >= j0 { n - j0 } else { usize::MAX - (j0 - n) }),
+            Val::Pair(l, r) => Val::Pair(Box::new(l.rebase_expr(j0)), Box::new(r.rebase_expr(j0))),
+            Val::Range(l, r) => Val::Range(Box::new(l.rebase_expr(j0)), Box::new(r.rebase_expr(j0))),
+            Val::Concat(l, r) => Val::Concat(Box::new(l.rebase_expr(j0)), Box::new(r.rebase_expr(j0))),
+            Val::Slice(l, r) => Val::Slice(Box::new(l.rebase_expr(j0)), Box::new(r.rebase_expr(j0))),
+            Val::Partial(l, r) => Val::Partial(Box::new(l.rebase_expr(j0)), Box::new(r.rebase_expr(j0))),
+            Val::List(items) => Val::List(items.iter().map(|i| i.rebase_expr(j0)).collect()),
+            other => other.clone(),
+        }
+    }
     pub fn over_budget(&self) -> bool {
         match self {
             Val::Bad(s) => s == OVER_BUDGET,
